@@ -73,7 +73,10 @@ func (m memOpener) Open(locale string) (io.ReadCloser, error) {
 	return io.NopCloser(strings.NewReader(s)), nil
 }
 
-func dropped(id uint64) bool { return id%2 == 0 }
+// dropped: is the message left out of the partial catalogues?
+var dropParity uint64
+
+func dropped(id uint64) bool { return id%2 == dropParity }
 
 // pipelineGlobals are the compile-time globals of SoyPO.POEnv.
 var pipelineGlobals = map[string]string{"GLOB": "gv", "app.glob": "gv"}
@@ -89,12 +92,23 @@ type reporter struct {
 }
 
 func (r *reporter) Violation(sig core.Sig, what string, replay interface{}) {
-	if r.coll {
+	if r.coll && namingCaused(sig) {
 		what = "[" + sig.String() + "] " + what
 		sig = core.Sig{Family: "M2-roundtrip", Feature: "names-not-a-function-of-the-message,suffix-collides-with-base-name"}
 	}
 	r.ctx.Violation(sig, what, replay)
 }
+
+// namingCaused: the kinds of failure that unstable placeholder names produce.
+func namingCaused(sig core.Sig) bool {
+	for _, k := range []string{"msgid-differs", "msgid_plural-differs", "id-reference-differs", "wrong-text", "unexpected-error", "codegen-error", "var-reference-wrong", "generated-js-does-not-load"} {
+		if strings.Contains(sig.Feature, k) {
+			return true
+		}
+	}
+	return false
+}
+
 func (r *reporter) ToolError(f string, a ...interface{}) { r.ctx.ToolError(f, a...) }
 func (r *reporter) AddEvals(n int64)                     { r.ctx.AddEvals(n) }
 func (r *reporter) Distinct(k string)                    { r.ctx.Distinct(k) }
@@ -232,8 +246,13 @@ func runGroup(ctx0 *core.Ctx, ctx *reporter, cases []*POCase, locales []string, 
 	const perFile = 60
 	var files []core.File
 	var occs []*occ
+	seed := int(ctx0.Seed % 1000)
+	if seed < 0 {
+		seed = -seed
+	}
+	dropParity = uint64(seed % 2)
 	for i, c := range valid {
-		if !c.isPlural() && i%7 == 3 {
+		if !c.isPlural() && (i+seed)%7 == 3 {
 			c.Meaning = "verb"
 		}
 		fi := i / perFile
@@ -247,7 +266,7 @@ func runGroup(ctx0 *core.Ctx, ctx *reporter, cases []*POCase, locales []string, 
 		dTop := "M|" + c.ID + "|top"
 		f.Text += c10.Template(fmt.Sprintf("m%d", i), vars, "", c10.MsgTag(c.Meaning, dTop, body))
 		occs = append(occs, &occ{c: c, where: "top", tmpl: fmt.Sprintf("%s.m%d", ns, i), desc: dTop, file: fi})
-		switch i % 3 {
+		switch (i + seed) % 3 {
 		case 0:
 			d := "M|" + c.ID + "|loop"
 			f.Text += c10.Template(fmt.Sprintf("l%d", i), vars, "",
